@@ -1398,7 +1398,8 @@ def renamed_domain(mapping, newnames, name=''):
     ndim = mapping.ndims[0]
     ident_map = AffineTransform(new_function_domain,
                                 mapping.function_domain,
-                                np.identity(ndim+1))
+                                np.identity(ndim+1,
+                                            dtype=mapping.function_domain.coord_dtype))
 
     if isinstance(mapping, AffineTransform):
         return _compose_affines(mapping, ident_map)
@@ -1463,7 +1464,8 @@ def renamed_range(mapping, newnames):
     ndim = mapping.ndims[1]
     ident_map = AffineTransform(mapping.function_range,
                                 new_function_range,
-                                np.identity(ndim+1))
+                                np.identity(ndim+1,
+                                            dtype=mapping.function_range.coord_dtype))
 
     if isinstance(mapping, AffineTransform):
         return _compose_affines(ident_map, mapping)
